@@ -7,7 +7,7 @@
    enable-disable events.  Numbers are the reals (instance Rops); [fixed] / [efix] select the code
    before / after the two repairs of branch fix-C08 (true = repaired, the tree the check is tied to). *)
 From Coq Require Import ZArith List Bool Reals.
-From CV Require Import Base.Num Base.RNum C08.ModuleModel C08.ModuleProofs C17.ExtLagModel C17.ExtLagProofs C08.ExtCompose C04.ABFModel C04.ABFProofs C08.AbfCompose.
+From CV Require Import Base.Num Base.RNum C08.ModuleModel C08.ModuleProofs C17.ExtLagModel C17.ExtLagProofs C08.ExtCompose C08.AbfCompose.
 Import ListNotations.
 Local Open Scope R_scope.
 
@@ -267,31 +267,19 @@ Print Assumptions C08_extended_superposition.
    (lagged engine forces, subtractAppliedForce on its variables, applyBias on): for the same imposed history and
    ARBITRARY forces of the other biases (c_other / i_o: any history in A++B, none when alone) the ABF bias attributes
    the same samples, so the count and the gradient sum of every bin - its whole estimator - are the same. *)
-Theorem C08_abf_coupling :
-  forall (c : @abf_cfg R) (o' : list bool),
-    c_same_step c = false ->
-    (forall k, (k < c_nd c)%nat -> bget (c_subtract c) k = true) ->
-    forall (h h' : list (@abf_in R)) (b : idx),
-      wf_cfg c -> Forall2 same_but_other h h' ->
-      s_cnt (fst (abf_run Rops (set_other c o') h')) b = s_cnt (fst (abf_run Rops c h)) b /\
-      forall k, (k < c_nd c)%nat ->
-        vget Rops (s_sum (fst (abf_run Rops (set_other c o') h')) b) k = vget Rops (s_sum (fst (abf_run Rops c h)) b) k.
-Proof. exact abf_data_independent_of_other_biases. Qed.
+(* statement: [abf_coupling_stmt] in coq/C08/AbfCompose.v (the only file that uses C04's names); hypotheses: lagged forces, subtractAppliedForce
+   on the ABF's variables, C04's wf_cfg (stepZeroData only with same-step forces), applyBias on *)
+Theorem C08_abf_coupling : abf_coupling_stmt.
+Proof. exact abf_coupling_holds. Qed.
 Print Assumptions C08_abf_coupling.
 
 (* ... and so is the force the ABF bias computes at every step (the step i after any history h): with the estimator and
    the force of the force-reading bias unchanged by the other biases, the pair superposes exactly (colvar::f = ABF force
    + the others' force in C04's st_f; the others never read total forces: C08_superposition). *)
-Theorem C08_abf_force_coupling :
-  forall (c : @abf_cfg R) (o' : list bool),
-    c_same_step c = false ->
-    (forall k, (k < c_nd c)%nat -> bget (c_subtract c) k = true) ->
-    forall (h h' : list (@abf_in R)) (i i' : @abf_in R) (k : nat),
-      wf_cfg c -> Forall2 same_but_other (h ++ [i]) (h' ++ [i']) ->
-      (k < c_nd c)%nat -> (0 <= c_min c < c_full c)%Z -> (c_cap c = true -> 0 <= vget Rops (c_maxf c) k) ->
-      vget Rops (o_fabf (snd (abf_step Rops (set_other c o') (fst (abf_run Rops (set_other c o') h')) i'))) k
-      = vget Rops (o_fabf (snd (abf_step Rops c (fst (abf_run Rops c h)) i))) k.
-Proof. exact abf_force_independent_of_other_biases. Qed.
+(* statement: [abf_force_coupling_stmt] in coq/C08/AbfCompose.v (the only file that uses C04's names); hypotheses: lagged forces, subtractAppliedForce
+   on the ABF's variables, C04's wf_cfg (stepZeroData only with same-step forces), applyBias on; 0 <= minSamples < fullSamples, maxForce >= 0 *)
+Theorem C08_abf_force_coupling : abf_force_coupling_stmt.
+Proof. exact abf_force_coupling_holds. Qed.
 Print Assumptions C08_abf_force_coupling.
 
 (* ---- seeded change C08_2 -------------------------------------------------------------------------------- *)
@@ -327,15 +315,8 @@ Proof. exact total_force_coupling_early_fold. Qed.
 
 (* C08_abf_coupling with the other biases' force written as the pipeline routes it: an fb part plus an fb_actual part
    (harmonicWalls), any history of both: the ABF estimator is the one of the ABF bias alone. *)
-Theorem C08_abf_coupling_routed :
-  forall (c : @abf_cfg R) (o' : list bool) (hr : list (@abf_in R * (@vec R * @vec R))) (b : idx),
-    c_same_step c = false ->
-    (forall k, (k < c_nd c)%nat -> bget (c_subtract c) k = true) ->
-    wf_cfg c -> Forall (fun x => i_apply (fst x) = true) hr ->
-    let h := map fst hr in
-    let h' := map (fun x => with_other (c_nd c) (fst x) (fst (snd x)) (snd (snd x))) hr in
-    s_cnt (fst (abf_run Rops (set_other c o') h')) b = s_cnt (fst (abf_run Rops c h)) b /\
-    forall k, (k < c_nd c)%nat ->
-      vget Rops (s_sum (fst (abf_run Rops (set_other c o') h')) b) k = vget Rops (s_sum (fst (abf_run Rops c h)) b) k.
-Proof. exact abf_coupling_routed. Qed.
+(* statement: [abf_coupling_routed_stmt] in coq/C08/AbfCompose.v (the only file that uses C04's names); hypotheses: lagged forces, subtractAppliedForce
+   on the ABF's variables, C04's wf_cfg (stepZeroData only with same-step forces), applyBias on *)
+Theorem C08_abf_coupling_routed : abf_coupling_routed_stmt.
+Proof. exact abf_coupling_routed_holds. Qed.
 Print Assumptions C08_abf_coupling_routed.
